@@ -75,6 +75,25 @@ CHECKS = {
              "emitted state is replayed with all 12 shapes + aliases x 1-2 object layers for name/regex/mixed definitions, "
              "plus seeded random worlds; verdict, message lines and layer tags are validated by the trace specification.",
         design_ref="6 (C05)"),
+    "C06": dict(
+        technique="TLA+ abstract syntax of the documented PlantUML subset (DiagramSem.tla); TLC enumerates diagrams "
+                  "line by line, each is rendered to text, parsed by the real PumlParser and validated by Trace_Diagram",
+        text="A diagram is a sequence of abstract lines (declaration / reference / arrow forms, aliases, noise); its "
+             "components and dependor->dependee relation are TLA+ operators, checked by TLC to be independent of line "
+             "order. Every documented diagram of up to two lines over the model's alphabet (simple and dotted names) "
+             "and seeded random diagrams of 2-6 components with mixed forms, alias/name references and text outside the "
+             "tags are rendered, parsed by the real code, and compared by the trace specification; missing tags must "
+             "raise a parsing error. The concrete syntax lives in a trusted, self-checked renderer.",
+        design_ref="6 (C06)"),
+    "C07": dict(
+        technique="TLC checks on a bounded model that pairwise conformance equals the conjunction of the generated "
+                  "RuleSem rules; emitted states and random worlds evaluated by the real DiagramRule and validated by "
+                  "Trace_Diagram.tla",
+        text="DiagramSem!Conforms states the pairwise reading of C07; TLC proves on every import relation of the bounded "
+             "world that it coincides with the conjunction of the generated rules (whose aggregated message is the union "
+             "of their lines). Real DiagramRule evaluations (both modes, both naming options, bystanders and sub modules) "
+             "on emitted states and seeded random worlds are validated for verdict and complete aggregated message.",
+        design_ref="6 (C07)"),
 }
 
 PENDING = {}
